@@ -303,11 +303,37 @@ def check_object_forms(case):
         exp = np.concatenate([ref[0:1], np.sum(ref[1:], axis=0, keepdims=True)], axis=0)
         forms.append(("getX([src_0, Collection(rest)], sensors)",
                       lambda s, q: pathfix(gx([s[0], C(*s[1:])], q, squeeze=False)), exp, False, sc * L))
+    # keyword arguments are forwarded by every method form (pixel_agg; in_out where the form has it)
+    agg = case.get("agg_form") or "mean"
+    ref_agg = call(lambda s, q: gx(s, q, squeeze=False, pixel_agg=agg))
+    tot_agg = np.sum(ref_agg, axis=0, keepdims=True)
+    forms += [
+        ("src.getX(*sensors, pixel_agg)", lambda s, q: meth(s[0], f)(*q, squeeze=False, pixel_agg=agg),
+         call(lambda s, q: gx(s[0], q, squeeze=False, pixel_agg=agg)), True, sc),
+        ("sens.getX(*sources, pixel_agg)", lambda s, q: meth(q[0], f)(*s, squeeze=False, pixel_agg=agg),
+         call(lambda s, q: gx(s, q[0], squeeze=False, pixel_agg=agg)), True, sc),
+        ("Collection(sources).getX(*sensors, pixel_agg)",
+         lambda s, q: pathfix(meth(C(*s), f)(*q, squeeze=False, pixel_agg=agg)), tot_agg, False, sc * L),
+        ("Collection(sensors).getX(*sources, pixel_agg)",
+         lambda s, q: pathfix(meth(C(*q), f)(*s, squeeze=False, pixel_agg=agg)), ref_agg, False, sc),
+        ("Collection(sources+sensors).getX(pixel_agg)",
+         lambda s, q: meth(C(*s, *q), f)(squeeze=False, pixel_agg=agg), tot_agg, False, sc * L),
+        ("getX(in_out='auto') explicit", lambda s, q: gx(s, q, squeeze=False, in_out="auto"), ref, True, sc),
+        ("src.getX(in_out='auto') explicit", lambda s, q: meth(s[0], f)(*q, squeeze=False, in_out="auto"),
+         each[0], True, sc),
+        ("sens.getX(in_out='auto') explicit", lambda s, q: meth(q[0], f)(*s, squeeze=False, in_out="auto"),
+         call(lambda s, q: gx(s, q[0], squeeze=False)), True, sc),
+    ]
     for name, fn, exp, exact, scl in forms:
         if fn is None:
             got, exp = exp
         else:
-            got = call(fn)
+            try:
+                got = call(fn)
+            except Exception as e:   # pylint: disable=broad-except
+                if not from_magpylib(e):
+                    raise
+                return bad(name, f"raised {type(e).__name__}: {str(e)[:120]}", clause="form-raises")
         ok, w = same(got, exp, exact, scl)
         if not ok:
             return bad(name, w)
@@ -353,7 +379,8 @@ def check_dataframe(case):
     row = 0
     for l, m, k, p in itertools.product(range(L), range(M), range(K), range(P)):
         r = df.iloc[row]
-        if (r["source"], int(r["path"]), r["sensor"], int(r["pixel"])) != (src_ids[l], m, sens_ids[k], p):
+        lab = tuple(x.item() if hasattr(x, "item") else x for x in (r["source"], r["path"], r["sensor"], r["pixel"]))
+        if lab != (src_ids[l], m, sens_ids[k], p):
             return fail("dataframe-order", trig + ":labels",
                         f"row {row} is labelled {(r['source'], r['path'], r['sensor'], r['pixel'])}, "
                         f"documented order gives {(src_ids[l], m, sens_ids[k], p)}")
@@ -438,8 +465,9 @@ def gen_func_case(rng, cls, field=None, n=None, modes=None):
             if modes["observers"] == "single":
                 inst["observer"] = shared["observer"]
         insts.append(inst)
+    io = rng.choice(["auto", "auto", "inside", "outside"]) if cls in ("Tetrahedron", "TriangularMesh") else "auto"
     return {"kind": "functional", "cls": base, "field": field or rng.choice(FIELDS), "n": n, "modes": modes,
-            "instances": insts}
+            "in_out": io, "instances": insts}
 
 
 def functional_call(case, squeeze=True):
@@ -457,7 +485,8 @@ def functional_call(case, squeeze=True):
     pos = insts[0]["position"] if modes["position"] == "single" else [i["position"] for i in insts]
     ori = rot_of(insts[0]["rotvec"]) if modes["orientation"] == "single" else rot_of([i["rotvec"] for i in insts])
     obs = insts[0]["observer"] if modes["observers"] == "single" else [i["observer"] for i in insts]
-    got = quiet(getX(f), name, obs, position=pos, orientation=ori, squeeze=squeeze, **kw)
+    io = {} if case.get("in_out", "auto") == "auto" else {"in_out": case["in_out"]}
+    got = quiet(getX(f), name, obs, position=pos, orientation=ori, squeeze=squeeze, **io, **kw)
     return got, objs
 
 
@@ -465,7 +494,8 @@ def check_functional(case):
     cls, f, modes, insts = case["cls"], case["field"], case["modes"], case["instances"]
     n = len(insts)
     objs = [make_obj(cls, i["params"], i["position"], i["rotvec"]) for i in insts]
-    exp = np.array([quiet(getX(f), o, i["observer"]) for o, i in zip(objs, insts)])    # (n, 3)
+    io = {} if case.get("in_out", "auto") == "auto" else {"in_out": case["in_out"]}
+    exp = np.array([quiet(getX(f), o, i["observer"], **io) for o, i in zip(objs, insts)])    # (n, 3)
     hb = np.array([quiet(magpy.getB, o, i["observer"]) for o, i in zip(objs, insts)])
     sc = scale_of(exp) or (scale_of(hb) / (MU0 if f in "HM" else 1.0)) or 1.0
     all_single = all(m == "single" for m in modes.values())
@@ -481,7 +511,7 @@ def check_functional(case):
     if not ok and got.shape == exp[:n_eff].shape:
         # the two interfaces rotate the observer with differently shaped Rotation objects (last-bit differences of the
         # local observer); accept a difference that a few-ulp perturbation of the observer explains
-        sens = np.array([ulp_sensitivity(o, i["observer"], f) for o, i in zip(objs, insts)])[:n_eff]
+        sens = np.array([ulp_sensitivity(o, i["observer"], f, io) for o, i in zip(objs, insts)])[:n_eff]
         if np.all(np.abs(got - exp[:n_eff]) <= 8 * sens[:, None] + 1e-12 * sc):
             ok = True
     if not ok:
@@ -494,16 +524,17 @@ def check_functional(case):
     return None
 
 
-def ulp_sensitivity(obj, observer, f):
+def ulp_sensitivity(obj, observer, f, io=None):
     """largest change of the field under +-4 ulp perturbations of the observer coordinates"""
     o = np.array(observer, dtype=float)
-    base = quiet(getX(f), obj, o)
+    io = io or {}
+    base = quiet(getX(f), obj, o, **io)
     worst = 0.0
     for ax in range(3):
         for sgn in (-1.0, 1.0):
             p = o.copy()
             p[ax] += sgn * 4 * np.spacing(max(abs(p[ax]), 1.0))
-            worst = max(worst, float(np.max(np.abs(quiet(getX(f), obj, p) - base))))
+            worst = max(worst, float(np.max(np.abs(quiet(getX(f), obj, p, **io) - base))))
     return worst
 
 
@@ -713,8 +744,58 @@ def check_roles(case):
     return None
 
 
+def shrink_obj_case(case):
+    """fewer sources / sensors / flags / paths / pixels while the same clause keeps failing"""
+    first = run_case(case)
+    if first is None:
+        return case, None
+
+    def still(c):
+        try:
+            r = run_case(c)
+        except Exception:   # pylint: disable=broad-except
+            return None
+        return r if (r is not None and r["clause"] == first["clause"]) else None
+
+    cur, res = case, first
+    cands = []
+    for flag in ("sumup", "pixel_agg"):
+        if cur.get(flag):
+            cands.append(lambda c, flag=flag: dict(c, **{flag: None}))
+    for _ in range(3):
+        cands.append(lambda c: dict(c, sources=c["sources"][1:]) if len(c["sources"]) > 1 else None)
+        cands.append(lambda c: dict(c, sources=c["sources"][:-1]) if len(c["sources"]) > 1 else None)
+        cands.append(lambda c: dict(c, sensors=c["sensors"][1:]) if len(c["sensors"]) > 1 else None)
+        cands.append(lambda c: dict(c, sensors=c["sensors"][:-1]) if len(c["sensors"]) > 1 else None)
+
+    def static(o):
+        o = dict(o)
+        if isinstance(o["position"][0], list):
+            o["position"] = o["position"][0]
+        if o["rotvec"] is not None and isinstance(o["rotvec"][0], list):
+            o["rotvec"] = o["rotvec"][0]
+        return o
+    cands.append(lambda c: dict(c, sources=[static(o) for o in c["sources"]], sensors=[static(o) for o in c["sensors"]]))
+    cands.append(lambda c: dict(c, sensors=[dict(o, pixel=None) for o in c["sensors"]]))
+    cands.append(lambda c: dict(c, sensors=[dict(o, rotvec=None, handedness="right") for o in c["sensors"]]))
+    cands.append(lambda c: dict(c, sources=[dict(o, rotvec=None) for o in c["sources"]]))
+    for mk in cands:
+        c2 = mk(cur)
+        if c2 is None or c2 == cur:
+            continue
+        r2 = still(c2)
+        if r2 is not None:
+            cur, res = c2, r2
+    return cur, res
+
+
 CHECKS = {"object-forms": check_object_forms, "dataframe": check_dataframe, "functional": check_functional,
           "core": check_core, "roles": check_roles}
+
+
+def from_magpylib(e):
+    import traceback
+    return any("/magpylib/" in fr.filename for fr in traceback.extract_tb(e.__traceback__))
 
 
 def run_case(case):
@@ -723,9 +804,7 @@ def run_case(case):
     try:
         return CHECKS[kind](case)
     except Exception as e:   # pylint: disable=broad-except
-        import traceback
-        frames = traceback.extract_tb(e.__traceback__)
-        if not any("/magpylib/" in fr.filename for fr in frames):
+        if not from_magpylib(e):
             raise      # a bug of this harness, not of the implementation
         cl = case.get("cls") or "+".join(sorted({s["cls"] for s in case.get("sources", [])}))
         return fail("raises", f"{kind}:{cl}:{type(e).__name__}",
